@@ -8,5 +8,5 @@ From PV Require Import Thrift.Interp Thrift.Len Thrift.Async Thrift.Skip Thrift.
 Extraction "model.ml"
   Z.add Z.mul Z.sub Z.opp Z.div Z.modulo Z.ltb Z.eqb Z.of_nat Z.to_nat Z.of_N Pos.succ
   b2z z2b
-  write_val write_vals read_val read_vals flat zc_len w0 r0 mkS rbuf len_val len_vals aread_val aread_vals skip askip sencB sencC annot w_message_begin r_message_begin spec_msgB spec_msgC mtype_of_code mtype_code uwrite_vals uw_contig uw_linked uread_vals uread_val u_skip u_field_begin urest
+  write_val write_vals read_val read_vals flat zc_len w0 r0 mkS rbuf len_val len_vals aread_val aread_vals skip askip sencB sencC annot w_message_begin r_message_begin spec_msgB spec_msgC mtype_of_code mtype_code uwrite_vals uw_contig uw_linked uread_vals uread_val u_skip u_field_begin urest tread_struct atread_struct utread_struct
   ttype_of_byte ttype_code.
